@@ -7,7 +7,7 @@ ro = importlib.util.module_from_spec(_s); _s.loader.exec_module(ro)
 
 def run(ctx):
     big = ctx.thorough()
-    base = {"Names": {"e1", "e2", "i1", "st"}, "Sessions": {"ebgp", "ibgpRR", "ebgpAP", "toCustomer"}, "Pols": {"accept", "prep", "setnh"},
+    base = {"Names": {"e1", "e2", "i1", "st"}, "Sessions": {"ebgp", "ibgpRR", "ebgpAP", "ibgpAP", "toCustomer"}, "Pols": {"accept", "prep", "setnh"},
             "MaxDepth": 5 if not big else 6, "MaxPaths": 3}
     for label, consts, pfx in [("design", dict(base, MaxDepth=99), ro.PFX1)]:
         ctx.design("RibOut", vf.cfg_text(constants=consts, invariants=ro.INV, view="View"), defs={"Pfxs": pfx}, label=label, timeout=3000)
